@@ -37,3 +37,45 @@ package app
 //@   modifies *
 //@   top-ensures isFresh(ctx)
 //@   top-ensures ctx.conn == nil
+
+// ---- C12: the chain interpreter ----
+// Ghost state: hi = largest handler index entered so far (-1 before any), aborted = Abort was called.
+//@ ghost field RequestContext.hi int
+//@ ghost field RequestContext.aborted bool
+
+// chainInv: what holds of a context at every call boundary of Next, Abort and of handlers.
+//@ macro chainInv(x) = -1 <= x.index && x.hi <= x.index && -1 <= x.hi && x.hi < len(x.handlers) && len(x.handlers) < 63 && (x.aborted ==> x.index >= 63)
+
+// Unknown handlers: whatever a handler does through the public API (Next, Abort, nothing) keeps
+// chainInv, never lowers hi, never clears aborted and does not replace the chain. This is the
+// rely condition; Next and Abort themselves are proved to satisfy it (their ensures clauses).
+// Assumed, listed: a handler does not call SetHandlers/Reset on the live context.
+//@ funcvalue app.HandlerFunc(c, ctx)
+//@   requires chainInv(ctx)
+//@   modifies *, ctx.hi, ctx.aborted
+//@   ensures chainInv(ctx) && ctx.hi >= old(ctx.hi) && (old(ctx.aborted) ==> ctx.aborted) && sameSlice(ctx.handlers, old(ctx.handlers))
+
+//@ func RequestContext.Next(ctx, c)
+//@   props C12
+//@   nosafety
+//@   requires chainInv(ctx)
+//@   modifies *, ctx.hi, ctx.aborted
+//@   ensures chainInv(ctx) && ctx.hi >= old(ctx.hi) && (old(ctx.aborted) ==> ctx.aborted) && sameSlice(ctx.handlers, old(ctx.handlers))
+//@   top-ensures ctx.index >= len(ctx.handlers)
+//@   assert before HandlerFunc: 0 <= ctx.index && ctx.index < len(ctx.handlers) && ctx.index > ctx.hi && !ctx.aborted
+//@   ghostset before HandlerFunc: ctx.hi = ctx.index
+//@   loop 0:
+//@     invariant ctx.index == -128 || (0 <= ctx.index && ctx.hi < ctx.index && -1 <= ctx.hi && ctx.hi < len(ctx.handlers) && (ctx.aborted ==> ctx.index >= 63))
+//@     invariant len(ctx.handlers) < 63 && ctx.hi >= old(ctx.hi) && (old(ctx.aborted) ==> ctx.aborted) && sameSlice(ctx.handlers, old(ctx.handlers))
+
+//@ func RequestContext.Abort(ctx)
+//@   props C12
+//@   requires chainInv(ctx)
+//@   modifies ctx.index, ctx.aborted
+//@   ghostset-at-entry ctx.aborted = true
+//@   top-ensures ctx.aborted && ctx.index == 63
+//@   ensures chainInv(ctx) && ctx.hi == old(ctx.hi) && sameSlice(ctx.handlers, old(ctx.handlers))
+
+//@ func RequestContext.IsAborted(ctx) r
+//@   props C12
+//@   ensures r == (ctx.index >= 63)
